@@ -68,6 +68,28 @@ mod verif_c15 {
         kani::cover!(total >= 1 || N == 0, "post-reached");
     }
 
+    /// multi-word tables (n = 7): the conversion of a positive monomial (concrete, one at a time) is that monomial alone,
+    /// and of constant one the empty cube alone - coefficient-exact on a family where the expected form is known
+    fn from_lut_monomials_n7(lo: u32, hi: u32) {
+        let mut s = lo;
+        while s < hi {
+            // table of the AND of the variables in s, over 7 variables
+            let mut t = [0u64; 2];
+            let mut m = 0usize;
+            while m < 128 {
+                if (m as u32) & s == s {
+                    t[m >> 6] |= 1u64 << (m & 63);
+                }
+                m += 1;
+            }
+            let e = Esop::from(&Lut::from_blocks(7, &t));
+            assert!(e.num_cubes() == 1);
+            assert!(e.cubes()[0] == Cube::from_mask(s, 0));
+            s += 1;
+        }
+        kani::cover!(true, "post-reached");
+    }
+
     fn any_esop<const K: usize>(n: usize) -> (Esop, [Cube; K]) {
         let mut terms: [Cube; K] = [Cube::one(); K];
         let mut i = 0;
@@ -186,6 +208,14 @@ mod verif_c15 {
     h!(c15t_from_lut_n3_232_240, 11, from_lut_range::<3>(232, 240));
     h!(c15t_from_lut_n3_240_248, 11, from_lut_range::<3>(240, 248));
     h!(c15t_from_lut_n3_248_256, 11, from_lut_range::<3>(248, 256));
+    h!(c15q_from_lut_n7_mono_0_16, 130, from_lut_monomials_n7(0, 16));
+    h!(c15t_from_lut_n7_mono_16_32, 130, from_lut_monomials_n7(16, 32));
+    h!(c15t_from_lut_n7_mono_32_48, 130, from_lut_monomials_n7(32, 48));
+    h!(c15t_from_lut_n7_mono_48_64, 130, from_lut_monomials_n7(48, 64));
+    h!(c15q_from_lut_n7_mono_64_80, 130, from_lut_monomials_n7(64, 80));
+    h!(c15t_from_lut_n7_mono_80_96, 130, from_lut_monomials_n7(80, 96));
+    h!(c15t_from_lut_n7_mono_96_112, 130, from_lut_monomials_n7(96, 112));
+    h!(c15q_from_lut_n7_mono_112_128, 130, from_lut_monomials_n7(112, 128));
     h!(c15q_value_k0_n2, 6, value_k::<0>(2));
     h!(c15q_value_k1_n2, 6, value_k::<1>(2));
     h!(c15q_value_k2_n3, 6, value_k::<2>(3));
